@@ -106,7 +106,8 @@ class RaftNode(Entity):
         self._heartbeat_event: Event | None = None
 
         # Pending client requests
-        self._pending_futures: dict[int, SimFuture] = {}  # log_index -> future
+        # log_index -> (term of the appended entry, future)
+        self._pending_futures: dict[int, tuple[int, SimFuture]] = {}
 
         # Stats
         self._commands_committed: int = 0
@@ -153,11 +154,11 @@ class RaftNode(Entity):
 
         if self._state != RaftState.LEADER:
             # Not leader — queue for forwarding
-            self._pending_futures[-(len(self._pending_futures) + 1)] = future
+            self._pending_futures[-(len(self._pending_futures) + 1)] = (self._current_term, future)
             return future
 
         entry = self._log.append(self._current_term, command)
-        self._pending_futures[entry.index] = future
+        self._pending_futures[entry.index] = (entry.term, future)
         return future
 
     def start(self) -> list[Event]:
@@ -568,9 +569,11 @@ class RaftNode(Entity):
                 self._last_applied = entry.index
                 self._commands_committed += 1
 
-                future = self._pending_futures.pop(entry.index, None)
-                if future:
-                    future.resolve((entry.index, result))
+                pending = self._pending_futures.pop(entry.index, None)
+                # The entry this node appended may have been overwritten by a
+                # later leader; only the entry of the same term is the client's.
+                if pending and pending[0] == entry.term:
+                    pending[1].resolve((entry.index, result))
 
     def _find_peer(self, source_name: str | None) -> Entity | None:
         if source_name is None:
